@@ -799,3 +799,45 @@ Fixpoint hrun (s : pool) (ls : list label) : option pool :=
               then match step s l with Some s' => hrun s' r | None => None end
               else None
   end.
+
+(* ====================================================================================== *)
+(* 8. USE statement texts seen by the server: what violates the second sentence of the     *)
+(*    property (an invalid keyspace name is never interpolated into a statement)           *)
+(* ====================================================================================== *)
+
+Definition is_alpha (c : N) : bool := existsb (N.eqb c) alphabet.
+(* characters that cannot smuggle anything in: identifier characters, blank, double quote, semicolon *)
+Definition benign (c : N) : bool := is_alpha c || (c =? 32) || (c =? 34) || (c =? 59).
+
+(* the maximal runs of identifier characters of a text, in order ([cur] = the run being read, reversed) *)
+Fixpoint runs (cur : name) (t : name) : list name :=
+  match t with
+  | [] => match cur with [] => [] | _ => [rev cur] end
+  | c :: r => if is_alpha c then runs (c :: cur) r
+              else match cur with [] => runs [] r | _ => rev cur :: runs [] r end
+  end.
+Definition idents (t : name) : list name := runs [] t.
+Definition kw_use : name := [85; 83; 69].      (* "USE" *)
+Definition name_mem (i : name) (l : list name) : bool := existsb (name_eqb i) l.
+
+(* a text that is not the model's but does no harm: only benign characters, and its identifiers are the
+   keyword USE (any case) followed by at least one name, all of them requested valid names *)
+Definition harmless (requested : list name) (t : name) : bool :=
+  forallb benign t &&
+  match idents t with
+  | kw :: rest => eq_ci kw kw_use && (match rest with [] => false | _ => true end) &&
+                  forallb (fun i => name_mem i requested) rest
+  | [] => false
+  end.
+
+Inductive tverdict := TOk | TDiff | TViol.
+(* verdict on one statement text, given the VALID names handed to use_keyspace so far *)
+Definition text_verdict (callk : list ks) (t : name) : tverdict :=
+  if name_mem t (map use_statement callk) then TOk
+  else if harmless (map fst callk) t then TDiff else TViol.
+(* the first text that is not the model's decides *)
+Fixpoint texts_verdict (callk : list ks) (ts : list name) : tverdict * name :=
+  match ts with
+  | [] => (TOk, [])
+  | t :: r => match text_verdict callk t with TOk => texts_verdict callk r | v => (v, t) end
+  end.
